@@ -216,7 +216,10 @@ func treeTap(r *run, line, out string) {
 	case "regpq":
 		// the stickiness limits are not part of the Sched model's line: read them back from the hook
 		stick := "-"
-		st := w.bq.VerifDumpState()
+		st := r.safeDump()
+		if st == nil {
+			return
+		}
 		for i := range st.SizeClassQueues {
 			q := &st.SizeClassQueues[i]
 			if strconv.Itoa(w.pqIDFor(q.InstanceNamePrefix, q.Platform)) == f[1] {
